@@ -139,7 +139,8 @@ func runCase(w io.Writer, vd binding.StructValidator, c *Case, uniq string) {
 	w.Write(buf.Bytes()) // one write per completed case
 }
 
-func readCases(path string) []*Case {
+// readCases reads the case file; only lines [from,to) are decoded (to < 0: all), the others stay nil.
+func readCases(path string, from, to int) []*Case {
 	f, err := os.Open(path)
 	if err != nil {
 		fmt.Fprintln(os.Stderr, err)
@@ -149,7 +150,11 @@ func readCases(path string) []*Case {
 	var all []*Case
 	sc := bufio.NewScanner(f)
 	sc.Buffer(make([]byte, 1<<20), 1<<26)
-	for sc.Scan() {
+	for i := 0; sc.Scan(); i++ {
+		if to >= 0 && (i < from || i >= to) {
+			all = append(all, nil)
+			continue
+		}
 		c := &Case{}
 		if err := json.Unmarshal(sc.Bytes(), c); err != nil {
 			fmt.Fprintln(os.Stderr, "bad case line:", err)
@@ -165,7 +170,7 @@ func readCases(path string) []*Case {
 }
 
 func worker(all []*Case, from, to int, seg, uniq string) {
-	debug.SetMaxStack(256 << 20)
+	debug.SetMaxStack(32 << 20) // expression trees are a few levels deep; a runaway recursion dies quickly
 	f, err := os.Create(seg)
 	if err != nil {
 		fmt.Fprintln(os.Stderr, err)
@@ -286,13 +291,13 @@ func main() {
 	to := flag.Int("to", 0, "internal")
 	seg := flag.String("seg", "", "internal")
 	uniq := flag.String("uniq", "", "internal")
-	stall := flag.Duration("stall", 90*time.Second, "kill a child that completes no case for this long")
+	stall := flag.Duration("stall", 45*time.Second, "kill a child that completes no case for this long")
 	flag.Parse()
-	all := readCases(*cases)
 	if *isWorker {
-		worker(all, *from, *to, *seg, *uniq)
+		worker(readCases(*cases, *from, *to), *from, *to, *seg, *uniq)
 		return
 	}
+	all := readCases(*cases, 0, -1)
 	self, err := os.Executable()
 	if err != nil {
 		fmt.Fprintln(os.Stderr, err)
